@@ -83,24 +83,35 @@ def mentions_cparam(f):
 
 
 def _const_only_locals(body):
-    """locals all of whose (non-cleanup) definitions are constants: local -> [(bb, value)]"""
+    """locals all of whose (non-cleanup) definitions are constants, or whole-local copies of such locals (the result of an
+    inlined predicate handed on through temporaries): local -> [(bb, value)]"""
     out = {}
-    for local, ds in body.defs().items():
-        vals = []
-        ok = True
-        for (b, i, kind, payload) in ds:
-            if body.is_cleanup(b):
+    for _round in range(4):
+        grew = False
+        for local, ds in body.defs().items():
+            if local in out:
                 continue
-            if kind != "rv":
-                ok = False
-                break
-            v = const_state_value(strip(body._rv_term(payload)))
-            if v is None:
-                ok = False
-                break
-            vals.append((b, v))
-        if ok and vals:
-            out[local] = vals
+            vals = []
+            ok = True
+            for (b, i, kind, payload) in ds:
+                if body.is_cleanup(b):
+                    continue
+                if kind != "rv":
+                    ok = False
+                    break
+                v = const_state_value(strip(body._rv_term(payload)))
+                if v is None:
+                    if payload["r"] == "use" and payload["op"]["o"] in ("copy", "move") and not payload["op"]["place"]["proj"] and payload["op"]["place"]["l"] in out and payload["op"]["place"]["l"] != local:
+                        vals.extend((b, tv) for (_, tv) in out[payload["op"]["place"]["l"]])
+                        continue
+                    ok = False
+                    break
+                vals.append((b, v))
+            if ok and vals:
+                out[local] = vals
+                grew = True
+        if not grew:
+            break
     return out
 
 
@@ -150,6 +161,23 @@ def break_arms(body, loop_blocks, header, start, exit_none):
     return set(b for b in body.reachable_from(start, avoid={header}) if b not in loop_blocks and b not in after and not body.is_cleanup(b))
 
 
+def _branch_decided(body, t, b):
+    """bool local t has one definition, and a block that branches on t itself dominates block b (t is not assigned again):
+    on every path into b the value of t is known from the edge taken"""
+    if t >= len(body.locals) or body.locals[t]["ty"] != "bool":
+        return False
+    ds = [d for d in body.defs().get(t, []) if not body.is_cleanup(d[0])]
+    if len(ds) != 1:
+        return False
+    for sb in range(len(body.blocks)):
+        if body.is_cleanup(sb) or sb == b or body.term(sb)["t"] != "switch":
+            continue
+        op = body.term(sb)["discr"]
+        if op["o"] in ("copy", "move") and not op["place"]["proj"] and op["place"]["l"] == t and body.dominates(sb, b):
+            return True
+    return False
+
+
 def state_locals(body, loop_blocks, arms=()):
     """Loop-carried control state: locals whose every definition is a constant (enum unit variant / bool), directly or by
     copying a temporary that itself only holds constants (`state = if c { A } else { B }`), with a definition inside the
@@ -172,6 +200,12 @@ def state_locals(body, loop_blocks, arms=()):
             if payload["r"] == "use" and payload["op"]["o"] in ("copy", "move") and not payload["op"]["place"]["proj"] and payload["op"]["place"]["l"] in consts:
                 for (_, tv) in consts[payload["op"]["place"]["l"]]:
                     vals.append((b, tv))
+                continue
+            if payload["r"] == "use" and payload["op"]["o"] in ("copy", "move") and not payload["op"]["place"]["proj"] and _branch_decided(body, payload["op"]["place"]["l"], b):
+                # `flag = dash` behind `if dash { .. } else { .. }`: on every way here the copied bool has been tested, so
+                # each path stores a known constant
+                vals.append((b, ("bool", True)))
+                vals.append((b, ("bool", False)))
                 continue
             ok = False
             break
@@ -370,6 +404,12 @@ def loop_transitions(facts, summ, body, loop):
         tmpenv = {}
         for a, b2 in zip(path, path[1:]):
             eg = body.edge_guards(a, b2)
+            ta = body.term(a)
+            if eg is not None and ta["t"] == "switch" and ta["discr"]["o"] in ("copy", "move") and not ta["discr"]["place"]["proj"] and body.locals[ta["discr"]["place"]["l"]]["ty"] == "bool":
+                from .sem import outcome_bool
+                ob_ = outcome_bool(eg[1])
+                if ob_ is not None:
+                    tmpenv[ta["discr"]["place"]["l"]] = ("bool", ob_)     # what this path knows about the tested bool itself
             if eg is None or is_dropflag_cond(eg[0]) and switch_local(body, a) is None:
                 continue
             sl = switch_local(body, a)
